@@ -120,7 +120,8 @@ def build(spec, order):
     types, n_in, n_out, attach_in, attach_out, etypes, inner = spec
     g = adapters.OldGraph()
     ids = {}
-    plan = {'std': ['in', 'sp', 'out'], 'outs_first': ['in', 'out', 'sp'], 'spiders_first': ['sp', 'in', 'out']}[order]
+    plan = {'std': ['in', 'sp', 'out'], 'outs_first': ['in', 'out', 'sp'], 'spiders_first': ['sp', 'in', 'out'],
+            'declared_backwards': ['in', 'sp', 'out']}[order]
     for what in plan:
         if what == 'in':
             for i in range(n_in):
@@ -133,6 +134,9 @@ def build(spec, order):
                 ids[('sp', k)] = g.add_vertex(t, phase=[0.25, 0.5][k % 2])
     g.inputs = [ids[('in', i)] for i in range(n_in)]
     g.outputs = [ids[('out', i)] for i in range(n_out)]
+    if order == 'declared_backwards':
+        # the k-th input / output of the graph is the k-th entry of its declared list, whatever the vertex numbers
+        g.inputs, g.outputs = g.inputs[::-1], g.outputs[::-1]
     e = 0
     for i, k in enumerate(attach_in):
         g.add_edge((ids[('in', i)], ids[('sp', k)]), etypes[e % len(etypes)])
@@ -251,7 +255,7 @@ def run(tier, seed=0, shard=(0, 1)):
     for j, spec in enumerate(specs):
         if j % step:
             continue
-        for order in ('std', 'outs_first', 'spiders_first'):
+        for order in ('std', 'outs_first', 'spiders_first', 'declared_backwards'):
             idx += 1
             if idx % shard[1] != shard[0]:
                 continue
